@@ -3,7 +3,7 @@ CONSTANTS
   Denoms = {"eth"}
   Mods <- Mods0
   AddrMode = "percode"
-  MaxTx = 3
+  MaxTx = 5
   Fuel = 3
   Level = 2
   Genesis <- GenesisPC
